@@ -69,7 +69,52 @@ def BOUNDED(tier, seed):
     np.random.seed(seed)
     fails, evals, distinct = [], 0, set()
     n = 400 if tier == 'quick' else 3000
-    for max_depth, grace, leaf_len in ((3, 20, 3), (5, 50, 5)):
+    def check_imputer(st, max_depth, when):
+        nonlocal evals
+        def model(z):
+            return {'output': sum(float(v) for v in z.values())}
+        for use_storage in (True, False):
+            imp = TreeImputer(model, st, use_storage=use_storage)
+            for sub in (['a'], ['b'], ['a', 'b', 'd'], [], ['c', 'd']):
+                x_i = dict(_stream(rng, 1, 0)[0])
+                xb = copy.deepcopy(x_i)
+                subb = list(sub)
+                seen_inputs = []
+                imp.model_function = lambda z, _s=seen_inputs: (_s.append(dict(z)), model(z))[1]
+                ns = 3
+                evals += 1
+                distinct.add((max_depth, use_storage, tuple(sub), when))
+                try:
+                    out = imp.impute(sub, x_i, n_samples=ns)
+                except Exception as ex:   # noqa  (valid input: the statement says n_samples predictions are returned)
+                    fails.append({'key': 'tree_imputer', 'summary': f'TreeImputer(use_storage={use_storage}) {when}, subset {sub}: impute raised {ex!r}',
+                                  'observed': repr(ex)})
+                    continue
+                err = None
+                if x_i != xb or sub != subb or len(out) != ns or len(seen_inputs) != ns:
+                    err = f'instance/subset modified or {len(out)} predictions for n_samples={ns}'
+                else:
+                    for z in seen_inputs:
+                        if any(z[k] != x_i[k] for k in x_i if k not in sub) or set(z) != set(x_i):
+                            err = f'model input {z} differs from the instance outside the subset {sub}'
+                            break
+                        for k in sub:
+                            if use_storage:
+                                root = st._storage_x[k]._root
+                                leaf = st.get_path_through_tree(root, {a: b for a, b in x_i.items()})
+                                res = st.data_reservoirs[k].get(leaf)
+                                if res is not None and not any(k in p and p[k] == z[k] for p in res.get_data()[0]):
+                                    err = f'imputed {k}={z[k]!r} is not the value of {k} in any point of the routed leaf reservoir'
+                                    break
+                            if k == 'b' and z[k] not in (1.0, 2.0, 3.0):
+                                err = f'categorical value {z[k]!r} was never observed'
+                                break
+                        if err:
+                            break
+                if err:
+                    fails.append({'key': 'tree_imputer', 'summary': f'TreeImputer(use_storage={use_storage}) {when}, subset {sub}: {err}', 'observed': err})
+
+    for max_depth, grace, leaf_len in ((3, 20, 3), (5, 50, 5), (4, 20, 1)):
         st = TreeStorage(cat_feature_names=['b'], num_feature_names=['a', 'c', 'd'], max_depth=max_depth, grace_period=grace,
                          leaf_reservoir_length=leaf_len, seed=seed)
         seen = []
@@ -107,6 +152,9 @@ def BOUNDED(tier, seed):
                             break
                     if err:
                         break
+            if not err and (t < 6 or t % 37 == 0 or n // 2 <= t < n // 2 + 4):
+                # the imputer on young trees / right after the drift: leaves with a single stored point, fresh splits
+                check_imputer(st, max_depth, f'after {t + 1} updates')
             if err:
                 fails.append({'key': 'tree_storage', 'summary': f'TreeStorage(max_depth={max_depth}, grace={grace}, leaf_len={leaf_len}) after '
                               f'{t + 1} updates: {err}', 'observed': err})
@@ -114,49 +162,7 @@ def BOUNDED(tier, seed):
         if stale:
             fails.append({'key': 'stale_reservoir', 'summary': f'TreeStorage(max_depth={max_depth}): {stale} reservoir(s) for leaves that are no '
                           f'longer in the current tree were observed over {n} updates', 'observed': stale})
-        # imputer
-        def model(z):
-            return {'output': sum(float(v) for v in z.values())}
-        for use_storage in (True, False):
-            imp = TreeImputer(model, st, use_storage=use_storage)
-            for sub in (['a'], ['b'], ['a', 'b', 'd'], [], ['c', 'd']):
-                x_i = dict(_stream(rng, 1, 0)[0])
-                xb = copy.deepcopy(x_i)
-                subb = list(sub)
-                seen_inputs = []
-                imp.model_function = lambda z, _s=seen_inputs: (_s.append(dict(z)), model(z))[1]
-                ns = 3
-                evals += 1
-                distinct.add((max_depth, use_storage, tuple(sub)))
-                try:
-                    out = imp.impute(sub, x_i, n_samples=ns)
-                except Exception as ex:   # noqa  (valid input: the statement says n_samples predictions are returned)
-                    fails.append({'key': 'tree_imputer', 'summary': f'TreeImputer(use_storage={use_storage}) subset {sub}: impute raised {ex!r}',
-                                  'observed': repr(ex)})
-                    continue
-                err = None
-                if x_i != xb or sub != subb or len(out) != ns or len(seen_inputs) != ns:
-                    err = f'instance/subset modified or {len(out)} predictions for n_samples={ns}'
-                else:
-                    for z in seen_inputs:
-                        if any(z[k] != x_i[k] for k in x_i if k not in sub) or set(z) != set(x_i):
-                            err = f'model input {z} differs from the instance outside the subset {sub}'
-                            break
-                        for k in sub:
-                            if use_storage:
-                                root = st._storage_x[k]._root
-                                leaf = st.get_path_through_tree(root, {a: b for a, b in x_i.items()})
-                                res = st.data_reservoirs[k].get(leaf)
-                                if res is not None and not any(k in p and p[k] == z[k] for p in res.get_data()[0]):
-                                    err = f'imputed {k}={z[k]!r} is not the value of {k} in any point of the routed leaf reservoir'
-                                    break
-                            if k == 'b' and z[k] not in (1.0, 2.0, 3.0):
-                                err = f'categorical value {z[k]!r} was never observed'
-                                break
-                        if err:
-                            break
-                if err:
-                    fails.append({'key': 'tree_imputer', 'summary': f'TreeImputer(use_storage={use_storage}) subset {sub}: {err}', 'observed': err})
+        check_imputer(st, max_depth, 'after the stream')
     return [{'name': 'tree_runtime_postconditions', 'evaluations': evals, 'distinct_nontrivial': len(distinct),
              'rule': 'mixed categorical/numerical stream with an abrupt concept drift half-way; after every update: length, reservoir keys vs current '
                      'leaves (stale count), size limit, completeness and provenance of stored points (by identity), newest point in its leaf; '
